@@ -530,4 +530,56 @@ theorem node_decorated_inverse (b fb r : Bag) (h : b.loopbackWith fb = .ok r) :
   | fwd hd hden =>
     exact (den_extension hin he hd _).2 hden
 
+/-- **Node level: two layers - the earlier layer's inverse receives what the later layer's inverse returned.**  For the context
+`ChainContext(ChainContext(L1, L2), f)`: reversing it, the backward input `n` of the EARLIER layer `L1` is fed by the backward output `o2` of the
+LATER layer `L2` that has its name (`L2` has an inverse field of that name).  In the decorated graph `n` computes exactly what `o2` computes:
+the inverses run in reverse order, each on the result of the one after it. -/
+theorem node_two_layers_reverse_order (b fb r : Bag) (h : b.loopbackWith fb = .ok r) :
+    ∃ state, connectBags b fb = .ok state ∧
+      ∀ (bi1 bo1 bi2 bo2 : List BNode) (inh1 inh2 inhf : NameSet) (n o2 : BNode),
+        state.ctx = .chain (.chain (.bag bi1 bo1 inh1) (.bag bi2 bo2 inh2)) (.bag [] [] inhf) →
+        (names state.outputs).Nodup → (names bo2).Nodup →
+        ((names bo2) ++ names (cloneEdges false (state.outputs.filter fun m => inhf.mem m.name && !(names []).contains m.name) state.next).1 |>.Nodup) →
+        n ∈ bi1 → o2 ∈ bo2 → o2.name = n.name → n ∉ r.inputs →
+        ∀ t, BDen r n t ↔ BDen r o2 t := by
+  obtain ⟨state, hst, hback⟩ := node_loopback_backward_input b fb r h
+  refine ⟨state, hst, ?_⟩
+  intro bi1 bo1 bi2 bo2 inh1 inh2 inhf n o2 hctx hnd hbo2 hnd2 hn ho2 hname hnr t
+  refine hback n o2 ?_ hnr t
+  rw [hctx]
+  -- the function's context is reversed first, then L2 on what it returned, then L1 on what L2 returned
+  have hrevF := fn_ctx_reverse inhf state.outputs state.next hnd
+  have hndF : (names (cloneEdges false (state.outputs.filter fun m => inhf.mem m.name && !(names []).contains m.name) state.next).1).Nodup := by
+    rw [cloneEdges_names, names_filter state.outputs fun x => inhf.mem x && !(names ([] : List BNode)).contains x]
+    exact List.Nodup.sublist List.filter_sublist hnd
+  have hrev2 := bag_ctx_reverse bi2 bo2 inh2 _ (cloneEdges false (state.outputs.filter fun m => inhf.mem m.name && !(names []).contains m.name) state.next).2.2 hndF hbo2
+  refine .earlier hrevF (.earlier hrev2 (.bag hn ?_))
+  -- among what L2 returned, the node named like `n` is L2's own backward output `o2` (names are pairwise different there)
+  have hmem : o2 ∈ bo2 ++ (cloneEdges false
+      ((cloneEdges false (state.outputs.filter fun m => inhf.mem m.name && !(names []).contains m.name) state.next).1.filter
+        fun m => inh2.mem m.name && !(names bo2).contains m.name)
+      (cloneEdges false (state.outputs.filter fun m => inhf.mem m.name && !(names []).contains m.name) state.next).2.2).1 :=
+    List.mem_append.2 (Or.inl ho2)
+  have hinj : (names (bo2 ++ (cloneEdges false
+      ((cloneEdges false (state.outputs.filter fun m => inhf.mem m.name && !(names []).contains m.name) state.next).1.filter
+        fun m => inh2.mem m.name && !(names bo2).contains m.name)
+      (cloneEdges false (state.outputs.filter fun m => inhf.mem m.name && !(names []).contains m.name) state.next).2.2).1)).Nodup := by
+    simp only [names, List.map_append]
+    have hcl := cloneEdges_names false
+      ((cloneEdges false (state.outputs.filter fun m => inhf.mem m.name && !(names []).contains m.name) state.next).1.filter
+        fun m => inh2.mem m.name && !(names bo2).contains m.name)
+      (cloneEdges false (state.outputs.filter fun m => inhf.mem m.name && !(names []).contains m.name) state.next).2.2
+    simp only [names] at hcl hnd2 ⊢
+    rw [hcl]
+    refine (List.nodup_append.1 hnd2).1 |> fun h1 => List.nodup_append.2 ⟨h1, ?_, ?_⟩
+    · exact List.Nodup.sublist (List.Sublist.map _ List.filter_sublist) (List.nodup_append.1 hnd2).2.1
+    · intro a ha b' hb'
+      have hb'' : b' ∈ List.map (fun x => x.name) (cloneEdges false (state.outputs.filter fun m => inhf.mem m.name && !(names []).contains m.name) state.next).1 := by
+        obtain ⟨x, hx, rfl⟩ := List.mem_map.1 hb'
+        exact List.mem_map.2 ⟨x, (List.mem_filter.1 hx).1, rfl⟩
+      exact (List.nodup_append.1 hnd2).2.2 a ha b' hb''
+  have := byName_of_mem (names_inj_of_nodup hinj) hmem
+  rw [hname] at this
+  exact this
+
 end CM.C10
